@@ -487,10 +487,12 @@ def fnPrefix (abi : Abi) (isUnsafe : Bool) : List Char :=
    | some s => "extern \"".toList ++ s.toList ++ "\" ".toList
    | none => [])
 
+def digitChars : List Char := ['0', '1', '2', '3', '4', '5', '6', '7', '8', '9']
+
 /-- `Display for usize` (array lengths): decimal digits, most significant first. -/
 def natDigits (n : Nat) : List Char :=
-  if n < 10 then [Char.ofNat (48 + n)]
-  else natDigits (n / 10) ++ [Char.ofNat (48 + n % 10)]
+  if n < 10 then [digitChars.getD n '0']
+  else natDigits (n / 10) ++ [digitChars.getD (n % 10) '0']
 termination_by n
 decreasing_by omega
 
